@@ -27,6 +27,26 @@ text = ["## Appendix E. Seeded changes and what catches them", "",
         "| seeded change | what it does | what it needs to manifest | result of the property's quick check |", "|---|---|---|---|"] + rows + [""]
 p = os.path.join(V, "DESIGN.md")
 s = open(p).read()
+# table of the behaviour-preserving refactorings (section 0.7)
+hrows = []
+hd = os.path.join(V, "seeded_harmless")
+for n in sorted(os.listdir(hd)) if os.path.isdir(hd) else []:
+    try:
+        meta = json.load(open(os.path.join(hd, n, "meta.json")))
+        patch = open(os.path.join(hd, n, "patch.diff")).read()
+    except OSError:
+        continue
+    files = ", ".join(sorted(set(f.replace("src/", "") for f in re.findall(r"^\+\+\+ b/(\S+)", patch, flags=re.M))))
+    try:
+        res = json.load(open(os.path.join(hd, n, "last_result.json")))
+    except (OSError, ValueError):
+        res = {}
+    quiet = all(v == "quiet" for v in res.values())
+    summ = re.sub(r"\s+", " ", str(meta.get("summary", "")))[:200]
+    hrows.append(f"| {n}: {summ} | {files} | {' '.join(sorted(res)) or 'not run'} | {'all quiet' if res and quiet else ('; '.join(k + ': ' + v for k, v in res.items() if v != 'quiet') or 'not run')} |")
+a, b = s.find("<!-- HARMLESS-BEGIN -->"), s.find("<!-- HARMLESS-END -->")
+if a >= 0 and b > a:
+    s = s[:a] + "<!-- HARMLESS-BEGIN -->\n" + "\n".join(hrows) + "\n" + s[b:]
 i = s.find("## Appendix E.")
 if i >= 0:
     s = s[:i]
